@@ -37,7 +37,7 @@ import c06
 
 PID = "C07"
 CHILD = Path(__file__).resolve().parent / "c07_child.py"
-TARGETS = ["Sim/Case.vo", "Sim/ReproProofs.vo", "Sim/ReproEmbed.vo", "Props/C07.vo", "Streams/Stream.vo"]
+TARGETS = ["Sim/Case.vo", "Sim/ReproProofs.vo", "Sim/ReproEmbed.vo", "Props/C07.vo", "Streams/Stream.vo", "Streams/Seeds.vo"]
 
 
 # ----------------------------------------------------------------------------- children
@@ -64,7 +64,7 @@ def run_children(jobs, nproc=14):
 
 
 # ----------------------------------------------------------------------------- generation
-def gen_fan_model(rng: random.Random, clock: str, with_pre: bool = False):
+def gen_fan_model(rng: random.Random, clock: str, with_pre: bool = False, updater: bool = False):
     """Active handlers reschedule themselves with a drawn positive delay and fire event types; listeners schedule
     only leaf handlers (which observe / cancel), so every run is finite.  Listener l has a level lv[l]: it is only
     ever subscribed to types <= lv[l] and only fires types > lv[l] (no recursion)."""
@@ -169,6 +169,18 @@ def gen_fan_model(rng: random.Random, clock: str, with_pre: bool = False):
              "stream_mode": rng.choice(["new", "setseed"])}
     if any(sd == 0 for _, sd in streams) and rng.random() < 0.7:
         model["stream_mode"] = "new"              # MersenneTwister(0) is then constructed in construct_model
+    if updater:
+        # the library's seed management instead: streams kept for the life of the model (dict / StreamInformation),
+        # StreamSeedUpdater (some streams listed, the others through its SimpleStreamUpdater fallback) or
+        # SimpleStreamUpdater, update_seeds(streams, replication number) at the start of construct_model
+        nr = rng.choice([0, 0, 1, 3])
+        kind = rng.choice(["seed", "seed", "simple"])
+        up = {"kind": kind, "nr": nr, "container": rng.choice(["dict", "si"]), "explicit_fallback": rng.random() < 0.3}
+        if kind == "seed":
+            listed = rng.sample(["a", "b", "c"], rng.randint(1, 3))
+            up["seeds"] = {nm: [rng.randint(0, 10 ** 9) for _ in range(nr + 1 + rng.randint(0, 2))] for nm in sorted(listed)}
+        model["stream_mode"] = "updater"
+        model["updater"] = up
     if with_pre:
         # SimEvent objects built before initialize() (some even before the unrelated prior activity of the process)
         # and handed to schedule_event(event) from construct_model / handlers; they tie in time and priority with
@@ -211,13 +223,16 @@ def variants(rng, model, clock, with_stop):
         return start + u * rng.randint(0, length // u - 1)
     t1, t2, t3 = sorted([cut(), cut(), cut()])
     base = {"clock": clock, "strategy": "log", "models": [model]}
+    # a pilot run of the same replication on the same simulator, model and stream objects before the real one
+    pilot_a = [init, ["runupto", t2]]
+    pilot_b = [init, ["start"]]
     out = [
         (0, PRIORS[0], dict(base, cmds=[init, ["start"]])),
         (1, PRIORS[1], dict(base, cmds=[init, ["runupto", t2], ["start"]])),
-        (2, PRIORS[2], dict(base, cmds=[init, ["runuptoincl", t1], ["runupto", t2], ["runuptoincl", t3], ["start"]])),
+        (2, PRIORS[2], dict(base, pilot=pilot_a, cmds=[init, ["runuptoincl", t1], ["runupto", t2], ["runuptoincl", t3], ["start"]])),
         (rng.randint(3, 2 ** 32 - 1), PRIORS[3], dict(base, cmds=[init, ["start"]])),
         # steps anywhere, also onto an event exactly at the replication end (a legal pause point since /repo 06e1929)
-        ("random", PRIORS[4], dict(base, cmds=[init, ["step"], ["step"], ["runupto", t2], ["step"], ["runuptoincl", t3], ["step"], ["start"]])),
+        ("random", PRIORS[4], dict(base, pilot=pilot_b, cmds=[init, ["step"], ["step"], ["runupto", t2], ["step"], ["runuptoincl", t3], ["step"], ["start"]])),
     ]
     if with_stop:
         out.append((1, PRIORS[1], dict(base, cmds=[init, ["start"], ["start"]], stop_at=[rng.randint(1, 6)])))
@@ -312,7 +327,7 @@ def main(tier: str) -> int:
             programs.append((ent["clock"], ent["model"], ent.get("seed", 1)))
     for i in range(n_prog):
         clock = clocks[i % len(clocks)]
-        programs.append((clock, gen_fan_model(rng, clock, with_pre=(i % 2 == 1)), rng.randint(0, 10 ** 9)))
+        programs.append((clock, gen_fan_model(rng, clock, with_pre=(i % 2 == 1), updater=(i % 3 == 2)), rng.randint(0, 10 ** 9)))
     jobs = []
     index = []
     for pi, (clock, model, vseed) in enumerate(programs):
@@ -384,8 +399,9 @@ def main(tier: str) -> int:
         for vi, job, o in lst_all:
             for nm in "abc":
                 ndraws[nm] = max(ndraws.get(nm, 0), sum(1 for d in o["full"]["draws"] if d[0] == nm))
-        pairs = [(dict(job["job"]["case"], _early_built=True), o["full"]) for vi, job, o in lst_all
-                 if not job["job"]["case"].get("stop_at")]
+        pairs = [(dict(job["job"]["case"], _early_built=True,
+                       cmds=[list(c) for c in (job["job"]["case"].get("pilot") or [])] + job["job"]["case"]["cmds"]), o["full"])
+                 for vi, job, o in lst_all if not job["job"]["case"].get("stop_at")]
         groups.append((pi, model, ndraws, pairs))
     hist["distinct_hash_probes"] = len(hist["distinct_hash_probes"])
     run.cov["evaluations"] = n_children
